@@ -325,6 +325,8 @@ def wl_ondisk_big(ctx, rng, case):
     import probables as P
 
     est, rate = rng.choice([(1_000_000, 0.01), (1_500_000, 0.05), (900_000, 0.01)])
+    if case.index % 2:
+        est, rate = rng.choice([(100_000, 0.01), (60_000, 0.001), (300_000, 0.05)])  # every other case: 100 .. 250 KiB (a few 64 KiB blocks and a remainder)
     est += rng.randint(0, 30)
     mk = refimpl.bloom_sizing_simple(est, rate)
     if mk is None:
@@ -359,6 +361,18 @@ def wl_ondisk_big(ctx, rng, case):
         ctx.check(parts[0] == "OK", "C reader could not read the backing file of a big on-disk filter", answer=" ".join(parts[:8]))
         for key, a in zip(probe, parts[7:]):
             ctx.check(int(a) == int(f.check(key)), "C reference reader answers differently from the library for a big backing file", key=key)
+        # ---- clear(): the file is then the export of an EMPTY filter of this geometry (cells all zero, the footer intact with count 0)
+        f.clear()
+        empty = bytes(want_len - 20) + refimpl.BLOOM_FOOTER.pack(est, 0, refimpl.f32(rate))
+        f.export(copy)
+        for name, pth in (("backing file", path), ("export copy", copy)):
+            with open(pth, "rb") as fh:
+                data = fh.read()
+            ctx.counters["disagreements_checked"] += 1
+            ctx.check(data == empty, f"{name} of a big on-disk filter after clear() is not the export of an empty filter of its geometry",
+                      first_difference=next((i for i, (x, y) in enumerate(zip(data, empty)) if x != y), None), lengths=(len(data), len(empty)), footer=refimpl.BLOOM_FOOTER.unpack(data[-20:]))
+        f.add(keys[0])
+        ctx.check(f.check(keys[0]) and f.elements_added == 1, "a big on-disk filter does not take additions after clear()")
         f.close()
         ctx.count("programs.files_read_by_c_reader")
         ctx.count("programs.histories_replayed_by_c_writer")
@@ -690,7 +704,7 @@ PROP = Prop(
         Workload("stream", wl_stream, quick=300, thorough=100000),
         Workload("cuckoo", wl_cuckoo, quick=300, thorough=80000),
         Workload("header", wl_header, quick=12, thorough=1000),
-        Workload("ondisk_big", wl_ondisk_big, quick=2, thorough=16),
+        Workload("ondisk_big", wl_ondisk_big, quick=4, thorough=24),
         Workload("aligned_dense", wl_aligned_dense, quick=10, thorough=300),
     ],
     assumptions=["the C reference (cref/ppref.c) was written from the documented layout, not from the library; built with clang -fsanitize=address,undefined -fno-sanitize-recover=all",
